@@ -155,6 +155,23 @@ def run(ctx):
                 (isinstance(x, ast.Assign) and any(txt(t) == pn for t in x.targets) and any(
                     isinstance(b, ast.BinOp) and isinstance(b.op, ast.Add) and pn in (txt(b.left), txt(b.right)) for b in ast.walk(x.value)))
                 for st in n.body for x in ast.walk(st))]
+            if not fixes:
+                # the normalisation may live in a private helper the position is passed through: p = self._h(p) / f(self._h(p))
+                for c in ast.walk(mem.node):
+                    if isinstance(c, ast.Call) and isinstance(c.func, ast.Attribute) and txt(c.func.value) == 'self' and \
+                            c.func.attr.startswith('_') and any(txt(a) == pn for a in c.args):
+                        h = prog.resolve(ci, c.func.attr)
+                        if isinstance(h, FuncInfo) and len(h.params) > 1:
+                            hp = h.params[1 + [txt(a) for a in c.args].index(pn)] if len(h.params) > 1 + [txt(a) for a in c.args].index(pn) else None
+                            if hp:
+                                ht = [n for n in ast.walk(h.node) if isinstance(n, ast.If) and any(
+                                    cmp_text(cc, hp) == '%s < 0' % hp for cc in ast.walk(n.test) if isinstance(cc, ast.Compare))]
+                                fixes += [n for n in ht if any(
+                                    (isinstance(x, ast.AugAssign) and txt(x.target) == hp and isinstance(x.op, ast.Add)) or
+                                    (isinstance(x, ast.Assign) and any(txt(t) == hp for t in x.targets) and any(
+                                        isinstance(b, ast.BinOp) and isinstance(b.op, ast.Add) and hp in (txt(b.left), txt(b.right))
+                                        for b in ast.walk(x.value))) for st in n.body for x in ast.walk(st))]
+                                tests = tests or ht
             ctx.ob('T15.neg', mem.fq, 'a negative `%s` is brought into range by adding a length (a `%s < 0` test whose branch does so)'
                    % (pn, pn), bool(fixes), loc=loc(mem, tests[0]) if tests else mem.loc,
                    detail='%d test(s) `%s < 0`, %d with the addition' % (len(tests), pn, len(fixes)))
@@ -230,7 +247,17 @@ def run(ctx):
         params = set(m.params[1:])
         for nd in ast.walk(m.node):
             if isinstance(nd, ast.For) and isinstance(nd.iter, ast.Name) and nd.iter.id in params:
-                removes = any(isinstance(c, ast.Call) and txt(c.func) in ('self.discard', 'self.remove', 'self.pop', 'self.clear')
+                rm_alias = set()
+                for a in ast.walk(m.node):
+                    if isinstance(a, ast.Assign) and len(a.targets) == 1:
+                        tg, vl = a.targets[0], a.value
+                        pairs_ = list(zip(tg.elts, vl.elts)) if isinstance(tg, ast.Tuple) and isinstance(vl, ast.Tuple) and \
+                            len(tg.elts) == len(vl.elts) else [(tg, vl)]
+                        for t_, v_ in pairs_:
+                            if isinstance(t_, ast.Name) and txt(v_) in ('self.discard', 'self.remove', 'self.pop', 'self.clear'):
+                                rm_alias.add(t_.id)
+                removes = any(isinstance(c, ast.Call) and (txt(c.func) in ('self.discard', 'self.remove', 'self.pop', 'self.clear') or
+                                                           (isinstance(c.func, ast.Name) and c.func.id in rm_alias))
                               for c in ast.walk(nd))
                 if removes:
                     guard = any(isinstance(t, ast.If) and txt(t.test) in ('self is %s' % nd.iter.id, '%s is self' % nd.iter.id) and t.lineno < nd.lineno
